@@ -88,8 +88,10 @@
 (* unsupported uses (directive on a variable, file without import of       *)
 (* unsafe, local body pushed into another package) make the build fail     *)
 (* (Rejected).  An implementation named by a linkname must not read        *)
-(* package variables in these scenarios (reading a variable of a package   *)
-(* that is not initialised yet is outside the property).                   *)
+(* package variables in these scenarios and must not suspend through the   *)
+(* server goroutine of vp/rt (state of a package that is not initialised   *)
+(* yet -- zero in Go, undefined in the compiled program -- is outside the  *)
+(* property).                                                              *)
 (*                                                                         *)
 (* HOW THE HARNESS USES IT.  harness/props/c10: InitScen enumerates the    *)
 (* families and decodes VERIF_SEED codes into programs, checks the         *)
@@ -166,6 +168,7 @@ WellFormed(S) ==
             /\ d.refs = <<>>
             /\ d.tg \in DOMAIN S.decls /\ S.decls[d.tg].pk \notin {1, d.pk}   \* not into main: its link name is tool specific
             /\ (d.bad # "var" => S.decls[d.tg].kind = "func" /\ S.decls[d.tg].refs = <<>>)
+            /\ S.decls[d.tg].blk # "srv"     \* vp/rt has state and is initialised with the implementation's package
        /\ d.kind = "zvar" => d.refs = <<>>
        /\ \A k \in DOMAIN d.refs :
             LET r == d.refs[k] t == S.decls[r.d] IN
